@@ -24,9 +24,17 @@ LOAD_ONLY = ["init"]
 HAS_DEFAULTS = {"dataclass", "namedtuple", "attrs", "pydantic", "init"}     # TypedDict: absent key stays absent; SQLAlchemy: column defaults apply at flush time
 
 
-def gen_logical(rng):
+PRIVATE_OK = ("dataclass", "attrs", "typeddict", "init")     # NamedTuple forbids leading underscores; pydantic private attributes and SQLAlchemy columns are another concept
+
+
+def gen_logical(rng, private=False):
     n = rng.randint(1, 6)
-    names = rng.sample(["ident", "name", "tags", "score", "kind_", "flag", "count", "meta_info", "x1"], n)
+    pool = ["ident", "name", "tags", "score", "kind_", "flag", "count", "meta_info", "x1"]
+    if private:
+        pool += ["_hidden", "_p", "_x_y"]     # no double leading underscore: Python mangles such names inside a class body
+    names = rng.sample(pool, n)
+    if private and not any(nm.startswith("_") for nm in names):
+        names[-1] = "_hidden"
     fields = []
     for i, nm in enumerate(names):
         node = models.portable_field_node(rng)
@@ -39,7 +47,14 @@ def gen_logical(rng):
             fields.append(models.FieldSpec(nm, node))
     head, tail = fields[:1], fields[1:]
     tail.sort(key=lambda f: not f.required)
-    return head + tail
+    fields = head + tail
+    if private and rng.random() < 0.6:
+        # keyword-only tail (dataclass kw_only / attrs kw_only / init *): the constructor call must use the parameter NAME,
+        # which for attrs differs from the field id of a private attribute
+        k = rng.randint(1, len(fields))
+        for f in fields[len(fields) - k:]:
+            f.kw_only = True
+    return fields
 
 
 def outer_key(name, style, trim=True):
@@ -63,9 +78,12 @@ def comparable(views, fields, present):
 
 
 def run_case(ctx, rng, idx):  # noqa: C901, PLR0912, PLR0915
-    fields = gen_logical(rng)
+    private = rng.random() < 0.3
+    fields = gen_logical(rng, private)
+    if private:
+        ctx.count("models_with_private_or_kw_only_fields")
     nodes = {}
-    for kind in KINDS + LOAD_ONLY:
+    for kind in (PRIVATE_OK if private else KINDS + LOAD_ONLY):
         try:
             nodes[kind] = models.ModelT(kind, models.clone_fields(fields))
         except Exception as e:  # noqa: BLE001
